@@ -51,7 +51,14 @@ class ModInfo:
         else:
             self.start = first[0]
         self.alphabet = sorted(set(''.join(gen.lits)) | set('ab1 ')) + (['\n'] if any('\n' in g for g in gaps) else [])
+        self.binary = bool(spec_.get('binary')) or bool(parent and parent.binary)
+        if self.binary:
+            self.alphabet = list('abe,;\x00\x01\x11\xff\xfe~')
         self.texts = []
+
+    def wire(self, t):
+        """The text as it goes into an operation: bytes for binary grammars."""
+        return ['bytes', t] if self.binary else t
 
     def plan_entry(self):
         rules = sorted(n for n, it in self.rules.items() if not it.get('params'))
@@ -62,7 +69,13 @@ def gen_universe(r):
     infos = []
     n_extra = r.choice([0, 0, 1, 1, 2])
     named0 = r.random() < 0.75
-    if r.random() < 0.2:
+    x0 = r.random()
+    if x0 < 0.07:
+        # a binary grammar: byte literals, b"..." strings, binary regexes; inputs are bytes
+        s0, g0, fixed = spec.binary_root(r, named0)
+        m0 = ModInfo(0, U.PREFIX + 'g0' if named0 else None, None, s0, g0)
+        m0.fixed_texts = fixed
+    elif x0 < 0.25:
         # the feature-rich fixed grammar: clients of one run meet in the same runtime helpers
         s0, g0, fixed = spec.tour_root(r, named0)
         m0 = ModInfo(0, U.PREFIX + 'g0' if named0 else None, None, s0, g0)
@@ -71,7 +84,7 @@ def gen_universe(r):
         s0, g0 = spec.gen_root(r, named0)
         m0 = ModInfo(0, U.PREFIX + 'g0' if named0 else None, None, s0, g0)
     infos.append(m0)
-    if named0 and r.random() < 0.55:
+    if named0 and not m0.binary and r.random() < 0.55:
         s1, g1 = spec.gen_child(r, g0, ignore=r.choice([None, None, None, 'named']))
         m1 = ModInfo(1, U.PREFIX + 'g1', 0, s1, g1, parent=m0)
         infos.append(m1)
@@ -110,6 +123,11 @@ def entry_text(r, m, it):
     if r.random() < 0.3:
         t = spec.mutate_text(r, t, m.alphabet)
     return t
+
+
+def text_len(op):
+    t = op['text']
+    return len(t[1]) if isinstance(t, list) else len(t)
 
 
 def warm_hot_lines(infos):
@@ -212,7 +230,7 @@ class Planner:
         if text and wr.random() < 0.2:
             pos = wr.randrange(0, min(len(text), 6))
         full = wr.random() < 0.8
-        op = {'op': 'parse', 'mod': mid, 'entry': entry, 'text': text, 'pos': pos, 'full': full}
+        op = {'op': 'parse', 'mod': mid, 'entry': entry, 'text': m.wire(text), 'pos': pos, 'full': full}
         rec = self.ref(op)
         fired = rec['fired']
         steps = rec['steps']
@@ -247,6 +265,30 @@ class Planner:
             op['budget'] = U.REF_BUDGET
         op['_steps'] = steps
         return op
+
+    def gen_sibling(self, op):
+        """The same text again, differing in ONE argument: start offset, fullparse flag or entry point
+        (state remembered from a call must not matter when only an argument changes)."""
+        wr = self.wr
+        m = self.infos[op['mod']]
+        new = {k: v for k, v in op.items() if k in ('op', 'mod', 'entry', 'text', 'pos', 'full')}
+        what = wr.choice(['pos', 'pos', 'full', 'entry'])
+        n = text_len(op)
+        if what == 'pos' and n > 0:
+            new['pos'] = wr.choice([p for p in (0, 1, 2, 3, n // 2, n - 1) if 0 <= p < n and p != op['pos']] or [0])
+        elif what == 'entry' and m.own:
+            it = wr.choice(m.own)
+            e = ('class:' if it['k'] == 'class' else 'rule:') + it['name']
+            new['entry'] = e if e != op['entry'] else 'parse'
+        else:
+            new['full'] = not op['full']
+        rec = self.ref(new)
+        if rec['out'].get('err') == 'nontermination':
+            new['budget'] = U.REF_BUDGET
+        else:
+            new['budget'] = min(U.SIM_BUDGET_CAP, 200 * rec['steps'] + 100_000)
+        new['_steps'] = rec['steps']
+        return new
 
     def gen_compile(self, kinds, next_id, forbidden_names, client_names):
         """A Grammar() construction as an operation of a client."""
@@ -383,6 +425,9 @@ class Planner:
                     continue
                 # a parse: mostly on the hot module so that calls collide
                 cands = [i for i in live if getattr(self.infos[i], 'owner', ci) == ci]
+                if ops and ops[-1]['op'] == 'parse' and text_len(ops[-1]) < 300 and wr.random() < 0.15:
+                    ops.append(self.gen_sibling(ops[-1]))
+                    continue
                 mid = hot if (hot in cands and wr.random() < 0.65) else wr.choice(cands)
                 ops.append(self.gen_parse(mid, kinds))
             clients.append(ops)
@@ -390,7 +435,7 @@ class Planner:
         for mid in sorted(self.infos):
             m = self.infos[mid]
             for t in m.texts[:2]:
-                probes.append({'op': 'parse', 'mod': mid, 'entry': 'parse', 'text': t, 'pos': 0, 'full': True})
+                probes.append({'op': 'parse', 'mod': mid, 'entry': 'parse', 'text': m.wire(t), 'pos': 0, 'full': True})
         expected = sum(op.get('_steps', 0) for ops in clients for op in ops) + 1
         if n_clients == 1 or 'preempt' not in kinds:
             pol = {'kind': 'sequential'} if (n_clients == 1 or sr.random() < 0.5) else {'kind': 'op-interleave'}
@@ -747,7 +792,7 @@ def minimise(doc, execute, finding_key, budget_s=60):
         # 5. texts
         for ci, ops in enumerate(state['plan']['clients']):
             for oi, op in enumerate(ops):
-                if op['op'] != 'parse' or len(op['text']) < 2 or time.time() >= deadline:
+                if op['op'] != 'parse' or not isinstance(op['text'], str) or len(op['text']) < 2 or time.time() >= deadline:
                     continue
                 for cut in (len(op['text']) // 2, len(op['text']) - 1):
                     p = copy.deepcopy(state['plan'])
